@@ -250,6 +250,26 @@ func TestJobConfigs(t *testing.T) {
 					if !hj.Idle() {
 						r.Divs = append(r.Divs, Divergence{Kind: "job-slot", Adapter: "jobs", Query: q, Expected: "run slot released", Actual: "still occupied"})
 					}
+					// a second run of the same job (incremental: nothing new to read) ends with a stored result too
+					if !failing && len(r.Divs) == 0 {
+						hj.ClearResult()
+						done2 := make(chan string, 1)
+						go func() { done2 <- hj.Run() }()
+						q2 := map[string]any{"config": c, "failing_sink": failing, "run": "second"}
+						select {
+						case p2 := <-done2:
+							sum.Checks += 2
+							if p2 != "" {
+								r.Divs = append(r.Divs, Divergence{Kind: "job-panic", Adapter: "jobs", Query: q2, Expected: "run ends as success, failure or kill", Actual: p2})
+							} else if _, _, has := hj.Result(); !has {
+								r.Divs = append(r.Divs, Divergence{Kind: "job-result", Adapter: "jobs", Query: q2, Expected: "a stored run result", Actual: "none"})
+							} else if !hj.Idle() {
+								r.Divs = append(r.Divs, Divergence{Kind: "job-slot", Adapter: "jobs", Query: q2, Expected: "run slot released", Actual: "still occupied"})
+							}
+						case <-time.After(20 * time.Second):
+							r.Divs = append(r.Divs, Divergence{Kind: "job-hang", Adapter: "jobs", Query: q2, Expected: "the run ends", Actual: "still running after 20 s"})
+						}
+					}
 				case <-time.After(20 * time.Second):
 					r.Divs = append(r.Divs, Divergence{Kind: "job-hang", Adapter: "jobs", Query: q, Expected: "the run ends", Actual: "still running after 20 s"})
 				}
